@@ -1815,6 +1815,10 @@ func errFilterName(cond ssa.Value, evs map[ssa.Value]bool) (string, bool, bool) 
 		if objPkgPath(o) == "os" && strings.HasPrefix(o.Name(), "Is") {
 			return "os." + o.Name(), !neg, true
 		}
+		// errors.Is(err, os.ErrNotExist) is os.IsNotExist(err) for an error that comes straight from the os package
+		if k := osErrTest(x); k != "" {
+			return "os." + k, !neg, true
+		}
 		if isFunc(o, "errors", "Is") || isFunc(o, "errors", "As") {
 			return "errors." + o.Name(), !neg, true
 		}
@@ -2532,7 +2536,7 @@ func ruleC15Retry(c *Checker) {
 	for _, fn := range sortedFuncs(p.family(u.Unpack)) {
 		permT, _ := condEdges(fn, func(v ssa.Value) bool {
 			cl, ok := v.(*ssa.Call)
-			return ok && isFunc(calleeObj(cl), "os", "IsPermission")
+			return ok && osErrTest(cl) == "IsPermission"
 		})
 		for _, ci := range callsTo(fn, func(o *types.Func) bool { return isFunc(o, "os", "Create") || isFunc(o, "os", "OpenFile") }) {
 			if len(permT) == 0 || !guarded(ci.Block(), permT) {
@@ -2721,4 +2725,43 @@ func (p *Prog) verdictPolarityOK(fn *ssa.Function, ev ssa.Value) bool {
 		}
 	}
 	return true
+}
+
+// osErrTest: the call is os.IsNotExist / IsPermission / IsExist (err), or the same question spelled
+// errors.Is(err, os.ErrNotExist | fs.ErrNotExist | …); returns "IsNotExist", "IsPermission", "IsExist" or "".
+func osErrTest(cl *ssa.Call) string {
+	o := calleeObj(cl)
+	if o == nil {
+		return ""
+	}
+	if objPkgPath(o) == "os" {
+		switch o.Name() {
+		case "IsNotExist", "IsPermission", "IsExist":
+			return o.Name()
+		}
+		return ""
+	}
+	if !isFunc(o, "errors", "Is") || len(cl.Call.Args) != 2 {
+		return ""
+	}
+	ld, ok := canon(cl.Call.Args[1]).(*ssa.UnOp)
+	if !ok || ld.Op != token.MUL {
+		return ""
+	}
+	g, ok := ld.X.(*ssa.Global)
+	if !ok || g.Pkg == nil {
+		return ""
+	}
+	if pp := g.Pkg.Pkg.Path(); pp != "os" && pp != "io/fs" && pp != "syscall" {
+		return ""
+	}
+	switch g.Name() {
+	case "ErrNotExist":
+		return "IsNotExist"
+	case "ErrPermission":
+		return "IsPermission"
+	case "ErrExist":
+		return "IsExist"
+	}
+	return ""
 }
